@@ -15,12 +15,12 @@ import (
 // reopen at the end and once in the middle.
 
 type kvLongJob struct {
-	Mode  int   `json:"mode"`
-	RW    int   `json:"rw"`
-	Seg   int64 `json:"seg"`
-	Shard int   `json:"shard"`
-	Of    int   `json:"of"`
-	Big   bool  `json:"big"`
+	Mode  int    `json:"mode"`
+	RW    int    `json:"rw"`
+	Seg   int64  `json:"seg"`
+	Shard int    `json:"shard"`
+	Of    int    `json:"of"`
+	Big   bool   `json:"big"`
 	Prop  string `json:"prop"`
 }
 
